@@ -97,6 +97,14 @@ func (g *fragGen) num(d int) string {
 		return "(-" + g.pick(g.nums) + ")"
 	case k < 11:
 		// arrays are kept at 3 elements by the generator
+		switch g.rng.Intn(6) {
+		case 0: // concatenation: 4 elements
+			return "(" + g.pick(g.arrs) + " + [" + g.numLit() + "])[" + g.idx(4) + "]"
+		case 1: // a slice: 2 elements
+			return g.pick(g.arrs) + g.pick([]string{"[1:]", "[:2]", "[-2:]", "[1:3]"}) + "[" + g.idx(2) + "]"
+		case 2: // repetition: 4 elements
+			return "([" + g.numLit() + " " + g.numLit() + "] * " + g.repCount("2") + ")[" + g.idx(4) + "]"
+		}
 		return g.pick(g.arrs) + "[" + g.idx(3) + "]"
 	default:
 		// maps are kept at the keys a and b by the generator
@@ -105,6 +113,13 @@ func (g *fragGen) num(d int) string {
 		}
 		return g.pick(g.maps) + "[" + g.key() + "]"
 	}
+}
+
+func (g *fragGen) repCount(n string) string {
+	if g.errs && g.rng.Intn(8) == 0 {
+		return g.pick([]string{"-1", "1.5"}) // ErrBadRepetition
+	}
+	return n
 }
 
 func (g *fragGen) key() string {
@@ -133,7 +148,7 @@ func (g *fragGen) strLit() string {
 }
 
 func (g *fragGen) str(d int) string {
-	k := g.rng.Intn(8)
+	k := g.rng.Intn(9)
 	if d <= 0 {
 		k = g.rng.Intn(4)
 	}
@@ -153,14 +168,19 @@ func (g *fragGen) str(d int) string {
 		return g.pick(g.strs)
 	case k < 7:
 		return "(" + g.str(d-1) + " + " + g.str(d-1) + ")"
-	default:
+	case k < 8:
 		// index into a literal of known length (strings grow, their length is not tracked)
 		return `"héllo"[` + g.idx(5) + "]"
+	default:
+		if g.errs && g.rng.Intn(6) == 0 {
+			return `"héllo"` + g.pick([]string{"[3:1]", "[2:9]", "[-7:]"}) // ErrSlice / ErrBounds
+		}
+		return `"héllo"` + g.pick([]string{"[1:3]", "[:2]", "[2:]", "[-3:-1]", "[4:4]", "[:]"})
 	}
 }
 
 func (g *fragGen) boolean(d int) string {
-	k := g.rng.Intn(9)
+	k := g.rng.Intn(10)
 	if d <= 0 {
 		k = g.rng.Intn(3)
 	}
@@ -175,14 +195,29 @@ func (g *fragGen) boolean(d int) string {
 		return "(" + g.str(d-1) + " " + g.pick([]string{"<", "==", "!=", ">="}) + " " + g.str(d-1) + ")"
 	case k < 8:
 		return "(" + g.boolean(d-1) + " " + g.pick([]string{"==", "!="}) + " " + g.boolean(d-1) + ")"
+	case k < 9: // structural equality
+		if g.rng.Intn(2) == 0 {
+			return "(" + g.mapv() + " " + g.pick([]string{"==", "!="}) + " " + g.mapv() + ")"
+		}
+		return "(" + g.arr() + " " + g.pick([]string{"==", "!="}) + " " + g.arr() + ")"
 	default:
 		return "(!" + g.boolean(d-1) + ")"
 	}
 }
 
 func (g *fragGen) arr() string {
-	if g.rng.Intn(3) == 0 {
+	switch g.rng.Intn(9) {
+	case 0, 1, 2:
 		return g.pick(g.arrs)
+	case 3: // 1 + 2 elements
+		return "(" + g.pick(g.arrs) + "[:1] + " + g.pick(g.arrs) + "[1:])"
+	case 4: // 3 × 1 element
+		return "([" + g.num(1) + "] * " + g.repCount("3") + ")"
+	case 5: // 2 + 1 elements
+		if g.errs && g.rng.Intn(6) == 0 {
+			return "(" + g.pick(g.arrs) + "[2:1] + [0])" // ErrSlice
+		}
+		return "(" + g.pick(g.arrs) + "[1:] + [" + g.num(0) + "])"
 	}
 	return "[" + g.num(1) + " " + g.num(1) + " " + g.num(0) + "]"
 }
@@ -519,6 +554,9 @@ func c16SemTie(stream, src string, r *Result, execModel, semModel *Model) {
 	if err != nil {
 		if err == ErrModelTimeout {
 			r.Dist(stream + ":model-timeout")
+			if r.Distribution[stream+":model-timeout"] <= 2 {
+				r.Note("%s: the extracted semantics did not answer within 20 s (skipped): %q", stream, src)
+			}
 			return
 		}
 		r.Violate(Violation{Kind: "correspondence", Key: stream + ":model-crash", Detail: err.Error(), Input: in})
